@@ -171,6 +171,26 @@ func NonNilPathWithout(from ssa.Instruction, ret *ssa.Return, v ssa.Value, avoid
 			if avoid(in) {
 				return false
 			}
+			// a transparent helper that executes an avoided instruction on every path on which the
+			// followed value (passed as an argument) may be non-nil acts like that instruction
+			if h := helperCallee(in); h != nil && len(newHelpers) > 0 {
+				call := in.(*ssa.Call)
+				var pv ssa.Value = call // stands for "some non-nil value" when v is not passed
+				for i, a := range call.Call.Args {
+					if i < len(h.Params) && same(a, v) {
+						pv = h.Params[i]
+					}
+				}
+				always := true
+				for _, hr := range Returns(h) {
+					if f, _ := NonNilPathWithout(nil, hr.Instr, pv, avoid); f {
+						always = false
+					}
+				}
+				if always && len(Returns(h)) > 0 {
+					return false
+				}
+			}
 			if al := loadOf(v); al != nil {
 				if st, ok := in.(*ssa.Store); ok && st.Addr == al {
 					v = st.Val
@@ -182,6 +202,10 @@ func NonNilPathWithout(from ssa.Instruction, ret *ssa.Return, v ssa.Value, avoid
 		}
 		if isNil(v) {
 			return false
+		}
+		if from == nil && b == fn.Blocks[0] {
+			trace = append([]int{}, path...)
+			return true // reached the function entry
 		}
 		for _, p := range fi.Preds[b] {
 			if !fi.Reach[p] {
